@@ -166,6 +166,8 @@ pub fn gen_undefined_unit(rng: &mut Rng, t: &RTree, level: usize, first: bool) -
 
 pub struct Pools {
     pub ascii: Vec<&'static [u8]>,
+    /// long ASCII texts (100 ... 70 000 bytes, lengths around 255/256 and 65 535/65 536)
+    pub long_ascii: Vec<&'static [u8]>,
     pub chr: Vec<&'static [u8]>,
     pub bin: Vec<&'static [u8]>,
     pub utf8: Vec<&'static str>,
@@ -181,6 +183,10 @@ pub fn pools() -> &'static Pools {
         for _ in 0..120 {
             let n = rng.usize(24);
             ascii.push(leak((0..n).map(|_| if rng.chance(1, 5) { *rng.pick(b"\";,'\n #()") } else { rng.usize(128) as u8 }).collect()));
+        }
+        let mut long_ascii: Vec<&'static [u8]> = vec![];
+        for n in [100usize, 127, 128, 200, 230, 250, 253, 254, 255, 256, 257, 300, 511, 512, 1000, 5000, 65_535, 65_536, 70_000] {
+            long_ascii.push(leak((0..n).map(|_| if rng.chance(1, 12) { *rng.pick(b"\";,'\n #()") } else { b' ' + rng.usize(95) as u8 }).collect()));
         }
         let mut chr: Vec<&'static [u8]> = vec![b"A", b"ABC", b"MAX", b"ON", b"Z9_x", b"ABCDEFGHIJKL"];
         for _ in 0..30 {
@@ -202,7 +208,7 @@ pub fn pools() -> &'static Pools {
         for _ in 0..20 {
             expr.push(leak(gen_expr_body(&mut rng)));
         }
-        Pools { ascii, chr, bin, utf8, expr }
+        Pools { ascii, long_ascii, chr, bin, utf8, expr }
     })
 }
 
